@@ -124,8 +124,9 @@ def run(ck):
 
     # ---- exhaustive small scope
     L.exhaustive(ck, 7 if thorough else 6, "whole", WHICH, THEOREMS_BC, rnd)
+    L.exhaustive(ck, 7 if thorough else 5, "hook", WHICH, ["C06_exactly_once_reentrant", "C06_nothing_after_fired_reentrant"], rnd)
     if thorough:
-        L.exhaustive(ck, 6, "split", WHICH, THEOREMS_BC, rnd)
+        L.exhaustive(ck, 7, "split", WHICH, THEOREMS_BC, rnd)
         ck.coqchk(["AV.Props.C06"])
 
     ck.cov["rule"] = ("seeded generators (random.Random(VERIF_SEED)). Framing: frame streams (0-6 frames, ids at the int32 extremes, bodies 4-300 bytes) "
